@@ -541,3 +541,215 @@ func ruleJSONPRINT(c *Ctx, r *Report) {
 	}
 	r.floor(rule, "renderers shared by leaf kinds", n, 1)
 }
+
+// JSON-NUM-EXACT (C12): integer leaves survive decoding exactly. encoding/json turns a number that lands in an
+// `any` into a float64, which cannot hold every int; the encoder writes an int leaf with all its digits, so a
+// decoder that narrows such a float64 back to an int changes integers beyond 2^53.
+func ruleJSONNUMEXACT(c *Ctx, r *Report) {
+	const rule = "JSON-NUM-EXACT"
+	r.doc(rule, "in the functions the JSON decoder reaches: wherever a value is narrowed from float64 to an integer type after a type assertion from an interface (a JSON number decoded generically), every call of that narrowing function is made on a value for which an exact integer reading of the number's own text (strconv.Atoi / ParseInt on the raw message, stored into the same place under err == nil) has been tried first — so the float64 is only ever narrowed when the text was not an integer that fits")
+	dec := c.method(pkgExpr, "Expression", "UnmarshalJSON")
+	if dec == nil {
+		r.bad(rule, "anchor", "-", "UnmarshalJSON not found")
+		return
+	}
+	reach := c.reachFrom([]*ssa.Function{dec})
+	// narrowing helpers: Convert float64 → integer of a value asserted from an interface
+	narrow := map[*ssa.Function]*ssa.Convert{}
+	for _, f := range sortedFuncs(reach) {
+		if !inLib(f) {
+			continue
+		}
+		for _, b := range f.Blocks {
+			for _, in := range b.Instrs {
+				cv, ok := in.(*ssa.Convert)
+				if !ok {
+					continue
+				}
+				from, okF := cv.X.Type().Underlying().(*types.Basic)
+				to, okT := cv.Type().Underlying().(*types.Basic)
+				if !okF || !okT || from.Info()&types.IsFloat == 0 || to.Info()&types.IsInteger == 0 {
+					continue
+				}
+				x := cv.X
+				if ex, ok := x.(*ssa.Extract); ok {
+					x = ex.Tuple
+				}
+				if ta, ok := x.(*ssa.TypeAssert); ok {
+					if _, isIface := ta.X.Type().Underlying().(*types.Interface); isIface {
+						narrow[f] = cv
+					}
+				}
+			}
+		}
+	}
+	n := 0
+	for _, f := range sortedFuncs(reach) {
+		if !inLib(f) {
+			continue
+		}
+		for _, b := range f.Blocks {
+			for _, in := range b.Instrs {
+				call, ok := in.(*ssa.Call)
+				if !ok {
+					continue
+				}
+				g := call.Call.StaticCallee()
+				if g == nil || narrow[g] == nil || len(call.Call.Args) == 0 {
+					continue
+				}
+				n++
+				arg := call.Call.Args[0]
+				key := fmt.Sprintf("%s|%s(%s)", fnName(f), fnName(g), c.key(arg, nil))
+				// the place the value is read from: a field of a local
+				exact := false
+				// the place the value is read from: a field of a local — directly, or through a pointer parameter of
+				// a closure / private helper that every caller hands the address of such a field
+				type slot struct {
+					fn *ssa.Function
+					fa *ssa.FieldAddr
+					at *ssa.Call
+				}
+				var slots []slot
+				if ld, ok := arg.(*ssa.UnOp); ok {
+					switch x := ld.X.(type) {
+					case *ssa.FieldAddr:
+						slots = append(slots, slot{f, x, call})
+					case *ssa.Parameter:
+						idx := -1
+						for i, q := range f.Params {
+							if q == x {
+								idx = i
+							}
+						}
+						allOK := idx >= 0
+						nSites := 0
+						for _, h := range c.Funcs {
+							for _, hb := range h.Blocks {
+								for _, hin := range hb.Instrs {
+									hc, ok := hin.(*ssa.Call)
+									if !ok || c.calleeE(hc, nil) != f && !closureCallOf(hc, f) {
+										continue
+									}
+									nSites++
+									if idx >= len(hc.Call.Args) {
+										allOK = false
+										continue
+									}
+									if fa, ok := hc.Call.Args[idx].(*ssa.FieldAddr); ok {
+										slots = append(slots, slot{h, fa, hc})
+									} else {
+										allOK = false
+									}
+								}
+							}
+						}
+						if !allOK || nSites == 0 {
+							slots = nil
+						}
+					}
+				}
+				exactSlots := 0
+				for _, sl := range slots {
+					f, fa, call := sl.fn, sl.fa, sl.at
+					slotExact := false
+					{
+						for _, b2 := range f.Blocks {
+							for _, in2 := range b2.Instrs {
+								st, ok := in2.(*ssa.Store)
+								if !ok {
+									continue
+								}
+								fa2, ok := st.Addr.(*ssa.FieldAddr)
+								if !ok || fa2.X != fa.X || fa2.Field != fa.Field {
+									continue
+								}
+								v := st.Val
+								if mi, ok := v.(*ssa.MakeInterface); ok {
+									v = mi.X
+								}
+								if cv, ok := v.(*ssa.Convert); ok {
+									v = cv.X
+								}
+								ex, ok := v.(*ssa.Extract)
+								if !ok || ex.Index != 0 {
+									continue
+								}
+								pc, ok := ex.Tuple.(*ssa.Call)
+								if !ok {
+									continue
+								}
+								switch calleeFullName(pc) {
+								case "strconv.Atoi", "strconv.ParseInt":
+								default:
+									continue
+								}
+								errKey := c.key(pc, nil) + "#1"
+								guarded := false
+								for _, a := range c.domAtoms(st.Block()) {
+									if a.Kind == "nil" && a.Pos && a.Subj == errKey {
+										guarded = true
+									}
+								}
+								if guarded && (st.Block() == call.Block() || reachesBlock(st.Block(), call.Block())) {
+									slotExact = true
+								}
+							}
+						}
+					}
+					if slotExact {
+						exactSlots++
+					}
+				}
+				exact = len(slots) > 0 && exactSlots == len(slots)
+				if exact {
+					r.ok(rule, key, c.instrPos(call), "an exact integer reading of the text is stored first")
+				} else {
+					r.badW(rule, key, c.instrPos(call), fmt.Sprintf("%s narrows a generically decoded JSON number (a float64) to an int through %s without an exact integer reading of its text having been tried first: an integer beyond 2^53 that the encoder wrote with all its digits comes back changed, so the re-encoded bytes and both SQL renderings differ from the original", fnName(f), fnName(g)), "`a:[1 TO 9007199254740993]` decodes with the bound 9007199254740992")
+				}
+			}
+		}
+	}
+	r.ok(rule, "narrowings-examined", "-", fmt.Sprintf("%d calls of float64→int narrowing helpers in the decoder", n))
+}
+
+func reachesBlock(from, to *ssa.BasicBlock) bool {
+	seen := map[*ssa.BasicBlock]bool{}
+	var walk func(b *ssa.BasicBlock) bool
+	walk = func(b *ssa.BasicBlock) bool {
+		if b == to {
+			return true
+		}
+		for _, s := range b.Succs {
+			if !seen[s] {
+				seen[s] = true
+				if walk(s) {
+					return true
+				}
+			}
+		}
+		return false
+	}
+	return walk(from)
+}
+
+// closureCallOf: the call invokes the closure f through a local function value (fn := func…; fn(x)).
+func closureCallOf(call *ssa.Call, f *ssa.Function) bool {
+	v := call.Call.Value
+	if ld, ok := v.(*ssa.UnOp); ok {
+		if al, ok := ld.X.(*ssa.Alloc); ok && al.Referrers() != nil {
+			for _, ref := range *al.Referrers() {
+				if st, ok := ref.(*ssa.Store); ok && st.Addr == ssa.Value(al) {
+					v = st.Val
+				}
+			}
+		}
+	}
+	if mc, ok := v.(*ssa.MakeClosure); ok {
+		return mc.Fn == ssa.Value(f)
+	}
+	if fn, ok := v.(*ssa.Function); ok {
+		return fn == f
+	}
+	return false
+}
